@@ -134,7 +134,7 @@ Section HParsers3.
     let res := i64 (10 + i64 (Z.of_N (u64 (li + 8))) - i64 (Z.of_N (u64 (lo + 8)))
                     - Z.of_N (u8 rq) - Z.of_N (u8 (u8 df + 1)))%Z in
     let res_bits := if (res <? 0)%Z then 0 else Z.to_N res in
-    if 64 <? res_bits then out_of_fuel else            (* Read of more than 64 bits: not modelled *)
+    if 56 <? res_bits then out_of_fuel else            (* Read of more than 56 bits (outside the exact range of the accumulator): not modelled *)
     octs <- hparse_octants 5 (u8 od) (2 ^ u8 yp) res_bits 0 0 0 0 (2 ^ u8 od) ;;
     e <- get_err R ;;
     if e then fail else
